@@ -46,6 +46,15 @@ def all_entries(ber_only=False):
     return [e for e in catalogue("thorough") if ber_only or not e.has("ber_only")]
 
 
+def promote(obligations, entry_ids):
+    """Put the obligations of thorough-only catalogue entries into the quick tier of this property as well."""
+    ids = set(entry_ids)
+    for o in obligations:
+        parts = o.id.split(":")
+        if len(parts) >= 2 and parts[-1] in ids:
+            o.tiers = ("quick", "thorough")
+
+
 def demote(obligations, entry_ids, prefixes=None):
     """Move the obligations of the given catalogue entries (optionally only those with the given id prefixes) to the thorough tier only."""
     ids = set(entry_ids)
